@@ -79,6 +79,72 @@ def sort_functions_and_order(chk, jvh, rnd, quick):
             raise ToolError("%s flag from Trace_Expr on %s: %s" % (kind, txt, what))
 
 
+AXIOM_UNI = ['null', 'false', 'true', '""', '"a"', '"b"', '"10"', '0', '1', '-1.5', '10', '9', '[]', '[1]', '[1, 5]', '[2]', '[[1]]', '[null]',
+             '{}', '{"a": 1}', '{"a": 1, "b": 2}', '{"b": 2, "a": 1}', '{"a": 5, "b": 0}', '{"a": 0, "b": 9}', '{"b": 1}', '{"a": {"x": 1, "y": 2}}',
+             '{"a": {"y": 2, "x": 1}}', '{"a": {"x": 1, "y": 3}}', '[{"a": 1, "b": 2}]', '[{"b": 2, "a": 1}]', '{"a": [2], "b": 1}', '{"a": [1, 5], "b": 1}']
+
+
+def order_axioms(chk, jvh, rnd, quick):
+    """The comparisons jawk itself makes form one total preorder, and both sorts follow it - on a universe with several objects (also equal ones
+    with their members in another order), whose mutual order the documentation leaves open."""
+    import exprlib as EL
+    import gen_json as G
+    from streamlib import run_trace_spec
+    recs, descs = [], []
+    for round_ in range(2 if quick else 12):
+        uni = list(AXIOM_UNI) if round_ == 0 else rnd.sample(AXIOM_UNI, 20)
+        rnd.shuffle(uni)
+        n = len(uni)
+        cases = []
+        for a in range(n):
+            # one run per left operand: a selection per right operand and function
+            argv = []
+            for b in range(n):
+                argv += ["--select=(<= %s %s) =le%d" % (uni[a], uni[b], b), "--select=(< %s %s) =lt%d" % (uni[a], uni[b], b)]
+            cases.append({"id": a, "argv": argv, "stdin": hexs(b"null\n")})
+        lst = "[" + ", ".join(uni) + "]"
+        cases.append({"id": n, "argv": ["--select=(sort .) =s"], "stdin": hexs(lst.encode("utf-8") + b"\n")})
+        rows = "".join('{"pos": %d, "k": %s}\n' % (i + 1, u) for i, u in enumerate(uni))
+        cases.append({"id": n + 1, "argv": ["--sort-by=.k", "--select=.pos =pos"], "stdin": hexs(rows.encode("utf-8"))})
+        obs = run_cases(jvh, cases)
+        if any(obs[i]["res"] != "ok" for i in range(n + 2)):
+            chk.violation("C07 order axioms: a comparison / sort run failed: %s" % [obs[i].get("msg") for i in range(n + 2) if obs[i]["res"] != "ok"][:2],
+                          {"universe": uni})
+            continue
+        le, lt = [], []
+        for a in range(n):
+            row = json.loads(bytes.fromhex(obs[a]["out"]).decode("utf-8"))
+            le.append([row.get("le%d" % b) is True for b in range(n)])
+            lt.append([row.get("lt%d" % b) is True for b in range(n)])
+            if any(not isinstance(row.get("le%d" % b), bool) or not isinstance(row.get("lt%d" % b), bool) for b in range(n)):
+                chk.violation("C07 order axioms: a comparison of two present values did not give a boolean: %s" % uni[a], {"universe": uni, "row": row})
+        canon = [G.canonical(PL.parse_ast(u)) for u in uni]
+        srt = [G.canonical(x) for x in PL.parse_ast(bytes.fromhex(obs[n]["out"]).decode("utf-8"))[1][0][1][1]]
+        used, sorted_idx = set(), []
+        for t in srt:
+            # equal texts (none in the universe) would be taken in universe order
+            k = next((i for i in range(n) if canon[i] == t and i not in used), None)
+            if k is None:
+                sorted_idx = []
+                break
+            used.add(k)
+            sorted_idx.append(k + 1)
+        by = [json.loads(l)["pos"] for l in bytes.fromhex(obs[n + 1]["out"]).decode("utf-8").splitlines() if l.strip()]
+        recs.append({"case": len(recs), "kind": "axioms", "n": n, "le": le, "lt": lt, "sorted": sorted_idx, "sortedBy": by})
+        descs.append({"universe": uni, "sort": bytes.fromhex(obs[n]["out"]).decode("utf-8")[:600], "sort_by_positions": by})
+        chk.evaluations += len(cases)
+    if not recs:
+        return
+    flags, _ = run_trace_spec("Trace_Expr", recs, "c07a", nproc=1 if quick else 6)
+    chk.traces += len(recs)
+    chk.notes["order_axiom_universes"] = len(recs)
+    for kind, case, what in flags:
+        if kind == "MISMATCH":
+            chk.violation("C07 order axioms on %s: %s" % (descs[case]["universe"], what[:300]), dict(descs[case], flag=what))
+        else:
+            raise ToolError("%s flag from Trace_Expr (axioms): %s" % (kind, what))
+
+
 def check(tier, seed, replay=None):
     chk = Check("C07", tier, seed)
     chk.rule = ("a case is one run with 1..3 --sort-by keys (ASC/DESC/omitted in random letter case) over a history of up to 40 rows whose keys "
@@ -113,5 +179,6 @@ def check(tier, seed, replay=None):
     per, recs = PC.run_and_validate(chk, jvh, cs, "c07", nproc=2 if tier == "quick" else 12)
     if not replay:
         sort_functions_and_order(chk, jvh, rnd, tier == "quick")
+        order_axioms(chk, jvh, rnd, tier == "quick")
     PC.summarize(chk, cs, per, lambda rc: len(rc["input"]) >= 3)
     return chk.finish()
